@@ -99,10 +99,16 @@ def append_(vc, lst, x):
         lst.items.append(lift(x))
 
 
+# concrete inputs used only to pick counter-models / conformance samples that agree with the real idna codec
+BUF_CANDS = [dict(buf=b, off=o) for b, o in [(b"\x03abc", 0), (b"\x04xn--", 0), (b"\x02\xc3\xa9", 0), (b"\x0exn--mnchen-3ya", 0), (b"\x00", 0), (b"", 0),
+                                              (b"\x05ab", 0), (b"\x41", 0), (b"xx\x01a", 2), (b"\x01.", 0), (b"\xc0\x0c", 0)]]
+LABEL_CANDS = [dict(l0=a, l1=b, l2=c, l3=d, l=a, t=a) for a, b, c, d in [("abc", "de", "f", "g"), ("m\u00fcnchen", "de", "", "x"), ("", "a", "b", "c"), ("a" * 64, "b", "c", "d"),
+                                                                       ("a.b", "", "", ""), (".", "", "", ""), ("a", "", "c", "d"), ("a", "b", "c", ""), ("a", "b" * 70, "c", "d")]]
+
 # =============================================================================================
 # names: label step, loops over the step, pack, round trip
 
-@scenario("label.unpack", functions=[DN + "_unpack_label_into"])
+@scenario("label.unpack", functions=[DN + "_unpack_label_into"], candidates=BUF_CANDS)
 def s_label(vc):
     """RFC 1035 §3.1: a label is one length octet (0..63) followed by that many octets; 0 terminates the name."""
     buf = vc.sym_bytes("buf")
@@ -255,7 +261,7 @@ def mk_name(vc, k):
     return ls, join_dots(ls)
 
 
-@scenario("name.pack", functions=[DN + "pack"])
+@scenario("name.pack", functions=[DN + "pack"], candidates=LABEL_CANDS)
 def s_pack(vc):
     """RFC 1035 §3.1: a name is the sequence of its labels, each as length octet + octets, ended by a zero octet;
     the empty name is the root (a single zero octet). Empty labels are refused. (All names with <= 3 dots.)"""
@@ -286,7 +292,7 @@ def s_pack(vc):
         vc.ensure("wellformed.is_bytes", isa(out.result, bytes))
 
 
-@scenario("label.roundtrip", functions=[DN + "_unpack_label_into"])
+@scenario("label.roundtrip", functions=[DN + "_unpack_label_into"], candidates=LABEL_CANDS)
 def s_label_roundtrip(vc):
     """Reading back an encoded label: for an IDNA-canonical label l (e = enc_idna(l), 0 < |e| < 64, dec_idna(e) == l) the
     bytes `|e| e` placed anywhere in a buffer are read as exactly l and consumed exactly. With `name.pack` (a packed name is
@@ -319,7 +325,7 @@ def s_root_roundtrip(vc):
     vc.ensure("unpack.ok", o2.ok and vc.eq(o2.result, ""))
 
 
-@scenario("name.reencode.label", functions=[DN + "pack"])
+@scenario("name.reencode.label", functions=[DN + "pack"], candidates=LABEL_CANDS)
 def s_reencode_label(vc):
     """A decoded message must re-encode to bytes that decode to the same message: the text t of ONE wire label, used as a
     (single-label) name, must be packed as one label again. Known finding: text containing '.' is split into several labels
@@ -473,3 +479,371 @@ def s_compressed(vc):
         if shape == "other_entry":
             f2, v2 = dict_lookup(vc, cache, k0)
             vc.ensure("memo.frame", f2 is True and isnone(v2))
+
+
+# =============================================================================================
+# messages (RFC 1035 §4.1.1 header, §4.1.2 question, §4.1.3 resource record)
+
+FLAG_FIELDS = ("query", "op_code", "authoritative_answer", "truncation", "recursion_desired", "recursion_available", "reserved", "response_code")
+
+
+def bit(x):
+    """bool -> 0/1 in both modes"""
+    return If(x, 1, 0)
+
+
+def spec_flags(m):
+    """RFC 1035 §4.1.1: QR(1) Opcode(4) AA TC RD RA Z(3) RCODE(4), most significant bit first; QR = 0 for a query"""
+    return (bit(Not(m["query"])) * 32768 + m["op_code"] * 2048 + bit(m["authoritative_answer"]) * 1024 + bit(m["truncation"]) * 512
+            + bit(m["recursion_desired"]) * 256 + bit(m["recursion_available"]) * 128 + m["reserved"] * 16 + m["response_code"])
+
+
+def be(n, width):
+    """big-endian bytes of a non-negative int < 256**width (both modes)"""
+    return from_codes([(n // (256 ** (width - 1 - k))) % 256 for k in range(width)])
+
+
+def sym_header_fields(vc, pfx=""):
+    return dict(id=vc.sym_int(pfx + "id"), query=vc.sym_bool(pfx + "query"), op_code=vc.sym_int(pfx + "op_code"),
+                authoritative_answer=vc.sym_bool(pfx + "aa"), truncation=vc.sym_bool(pfx + "tc"), recursion_desired=vc.sym_bool(pfx + "rd"),
+                recursion_available=vc.sym_bool(pfx + "ra"), reserved=vc.sym_int(pfx + "reserved"), response_code=vc.sym_int(pfx + "rcode"))
+
+
+def mk_message(vc, f, questions=(), answers=(), authorities=(), additionals=(), timestamp=None):
+    return vc.new(M, timestamp=timestamp, questions=vc.list(list(questions)), answers=vc.list(list(answers)),
+                  authorities=vc.list(list(authorities)), additionals=vc.list(list(additionals)), **f)
+
+
+def in_range(f):
+    return And(f["id"] >= 0, f["id"] <= 65535, f["op_code"] >= 0, f["op_code"] <= 15, f["reserved"] >= 0, f["reserved"] <= 7,
+               f["response_code"] >= 0, f["response_code"] <= 15)
+
+
+def call_packed(vc, m):
+    if vc.mode == "native":
+        return vc.call(lambda x: x.packed, m)
+    return vc.call(M + ".packed", m)
+
+
+@scenario("header.packed", functions=[M + ".packed"])
+def s_header_packed(vc):
+    f = sym_header_fields(vc)
+    m = mk_message(vc, f)
+    out = call_packed(vc, m)
+    if vc.branch(in_range(f)):
+        vc.ensure("in_range.ok", out.ok)
+        if out.ok:
+            vc.ensure("in_range.length", len_(out.result) == 12)
+            vc.ensure("in_range.id", be16(out.result, 0) == f["id"])
+            vc.ensure("in_range.flags", be16(out.result, 2) == spec_flags(f))
+            vc.ensure("in_range.counts_zero", out.result[4:12] == b"\x00" * 8)
+    else:
+        vc.ensure("out_of_range.value_error", raised_is(out, ValueError))
+
+
+def spec_header_fields(buf, off):
+    flags = be16(buf, off + 2)
+    return dict(id=be16(buf, off), query=flags < 32768, op_code=(flags // 2048) % 16, authoritative_answer=(flags // 1024) % 2 == 1,
+                truncation=(flags // 512) % 2 == 1, recursion_desired=(flags // 256) % 2 == 1, recursion_available=(flags // 128) % 2 == 1,
+                reserved=(flags // 16) % 8, response_code=flags % 16)
+
+
+def check_header_fields(vc, msg, exp, tag):
+    for k, v in exp.items():
+        vc.ensure(f"{tag}.{k}", vc.eq(getattr(msg, k), v))
+
+
+@scenario("header.unpack_from", functions=[M + ".unpack_from"])
+def s_header_unpack(vc):
+    buf = vc.sym_bytes("buf")
+    off = vc.sym_int("off", lo=0)
+    ts = vc.sym_int("ts")
+    L = len_(buf)
+    if vc.branch(off + 12 > L):
+        out = vc.call(M + ".unpack_from", vc.const(M), buf, off, ts)
+        vc.ensure("short_header.parse_error", raised_is(out, SE()))
+        return
+    for k in range(4):
+        vc.assume(be16(buf, off + 4 + 2 * k) == 0)
+    out = vc.call(M + ".unpack_from", vc.const(M), buf, off, ts)
+    vc.ensure("ok", out.ok)
+    if not out.ok:
+        return
+    vc.ensure("length", out.result[0] == off + 12)
+    msg = out.result[1]
+    check_header_fields(vc, msg, spec_header_fields(buf, off), "field")
+    vc.ensure("timestamp", vc.eq(msg.timestamp, ts))
+    vc.ensure("sections_empty", And(len_(msg.questions) == 0, len_(msg.answers) == 0, len_(msg.authorities) == 0, len_(msg.additionals) == 0))
+
+
+@scenario("header.flags.spec_roundtrip", functions=[])
+def s_flags_lemma(vc):
+    """Glue lemma (pure arithmetic, no code): decoding the RFC 1035 flag word built from in-range fields gives the fields
+    back. With `header.packed` (bytes follow the RFC layout) and `header.unpack_from` (fields are read per the RFC layout)
+    this is unpack(packed(m)) == m on the header; the same statement on the real code end-to-end is `header.roundtrip`
+    (thorough tier)."""
+    f = sym_header_fields(vc)
+    vc.assume(in_range(f))
+    fl = spec_flags(f)
+    vc.ensure("flags.fits_16_bits", And(fl >= 0, fl <= 65535))
+    dec = dict(query=fl < 32768, op_code=(fl // 2048) % 16, authoritative_answer=(fl // 1024) % 2 == 1, truncation=(fl // 512) % 2 == 1,
+               recursion_desired=(fl // 256) % 2 == 1, recursion_available=(fl // 128) % 2 == 1, reserved=(fl // 16) % 8, response_code=fl % 16)
+    for k, v in dec.items():
+        vc.ensure(f"decode_of_encode.{k}", Iff(v, f[k]) if k in ("query", "authoritative_answer", "truncation", "recursion_desired", "recursion_available") else v == f[k])
+
+
+def _thorough():
+    import os
+    return os.environ.get("PYVC_TIER") == "thorough"
+
+
+def s_header_roundtrip(vc):
+    """unpack(packed(m)) has the same header fields as m, for every in-range value of every field (sections empty)"""
+    f = sym_header_fields(vc)
+    vc.assume(in_range(f))
+    m = mk_message(vc, f)
+    o1 = call_packed(vc, m)
+    vc.ensure("pack.ok", o1.ok)
+    if not o1.ok:
+        return
+    o2 = vc.call(M + ".unpack", vc.const(M), o1.result)
+    vc.ensure("unpack.ok", o2.ok)
+    if o2.ok:
+        check_header_fields(vc, o2.result, f, "same")
+
+
+if _thorough():
+    s_header_roundtrip = scenario("header.roundtrip", functions=[M + ".packed", M + ".unpack", M + ".unpack_from"])(s_header_roundtrip)
+
+
+def packname(vc, name):
+    """bytes of a packed name: real domain_names.pack natively, an uninterpreted function in proof mode (its contract is `name.pack`)"""
+    if vc.mode == "native":
+        from mitmproxy.net.dns import domain_names
+        return _ORIG["pack"](name)
+    import z3
+    from pyvc import lib
+    return SBytes(lib.uf("packname", z3.StringSort(), z3.StringSort())(name.t))
+
+
+_ORIG = {}
+
+
+def _remember_originals():
+    from mitmproxy.net.dns import domain_names
+    for n in ("pack", "unpack_from_with_compression", "record_data_can_have_compression", "decompress_from_record_data"):
+        f = getattr(domain_names, n)
+        if getattr(f, "__module__", "") == domain_names.__name__:   # not a summary wrapper
+            _ORIG.setdefault(n, f)
+
+
+def mk_question(vc, i):
+    return vc.new("mitmproxy.dns:Question", name=vc.sym_str(f"q{i}_name"), type=vc.sym_int(f"q{i}_type", lo=0, hi=65535), class_=vc.sym_int(f"q{i}_class", lo=0, hi=65535))
+
+
+def mk_rr(vc, tag):
+    data = vc.sym_bytes(f"{tag}_data")
+    vc.assume(len_(data) <= 65535)
+    return vc.new("mitmproxy.dns:ResourceRecord", name=vc.sym_str(f"{tag}_name"), type=vc.sym_int(f"{tag}_type", lo=0, hi=65535),
+                  class_=vc.sym_int(f"{tag}_class", lo=0, hi=65535), ttl=vc.sym_int(f"{tag}_ttl", lo=0, hi=2 ** 32 - 1), data=data)
+
+
+CONCRETE_HEADER = dict(id=0x1234, query=False, op_code=0, authoritative_answer=True, truncation=False, recursion_desired=True,
+                       recursion_available=True, reserved=0, response_code=3)
+
+
+@scenario("message.packed.framing", functions=[M + ".packed"])
+def s_packed_framing(vc):
+    """RFC 1035 §4.1: header (counts = section sizes), then questions (QNAME QTYPE QCLASS), then answer, authority and
+    additional records in this order (NAME TYPE CLASS TTL RDLENGTH RDATA), RDATA copied verbatim. Names are packed by
+    domain_names.pack (abstracted; contract `name.pack`). Header fields are fixed here (contract `header.packed`)."""
+    _remember_originals()
+    nq, nan, nns, nar = vc.case("shape", [(1, 1, 1, 1), (2, 0, 1, 0), (0, 2, 0, 0), (0, 0, 0, 0)])
+    qs = [mk_question(vc, i) for i in range(nq)]
+    an = [mk_rr(vc, f"an{i}") for i in range(nan)]
+    ns = [mk_rr(vc, f"ns{i}") for i in range(nns)]
+    ar = [mk_rr(vc, f"ar{i}") for i in range(nar)]
+    m = mk_message(vc, dict(CONCRETE_HEADER), qs, an, ns, ar)
+    vc.summary(DN + "pack", lambda v, name: packname(v, name))
+    out = call_packed(vc, m)
+    vc.ensure("ok", out.ok)
+    if not out.ok:
+        return
+    exp = be(0x1234, 2) + be(0x8583, 2) + be(nq, 2) + be(nan, 2) + be(nns, 2) + be(nar, 2)
+    vc.ensure("header", out.result[0:12] == exp)
+    for q in qs:
+        exp = exp + packname(vc, q.name) + be(q.type, 2) + be(q.class_, 2)
+    for rr in an + ns + ar:
+        exp = exp + packname(vc, rr.name) + be(rr.type, 2) + be(rr.class_, 2) + be(rr.ttl, 4) + be(len_(rr.data), 2) + rr.data
+    vc.ensure("whole_message", out.result == exp)
+
+
+class Recorder:
+    """Summaries (callee contracts) for the helpers of DNSMessage.unpack_from; every call is recorded."""
+
+    def __init__(self, vc):
+        self.names, self.cancomp, self.decomp = [], [], []
+
+    def read_name(self, v, buffer, offset, cache):
+        i = len(self.names)
+        rec = dict(buffer=buffer, offset=offset, cache=cache, fails=v.sym_bool(f"name{i}_fails"), name=v.sym_str(f"name{i}"), length=v.sym_int(f"name{i}_len", lo=1))
+        self.names.append(rec)
+        if v.branch(rec["fails"]):
+            raise_(v, SE())
+        return (rec["name"], rec["length"]) if v.mode == "native" else STuple([rec["name"], rec["length"]])
+
+    def can_compress(self, v, record_type):
+        i = len(self.cancomp)
+        rec = dict(type=record_type, result=v.sym_bool(f"compressible{i}"))
+        self.cancomp.append(rec)
+        return ret_(v, rec["result"])
+
+    def decompress(self, v, buffer, offset, end_data, cache):
+        i = len(self.decomp)
+        rec = dict(buffer=buffer, offset=offset, end=end_data, cache=cache, result=v.sym_bytes(f"decompressed{i}"))
+        self.decomp.append(rec)
+        return ret_(v, rec["result"])
+
+    def install(self, vc):
+        vc.summary(DN + "unpack_from_with_compression", self.read_name)
+        vc.summary(DN + "record_data_can_have_compression", self.can_compress)
+        vc.summary(DN + "decompress_from_record_data", self.decompress)
+
+
+def be32(buf, i):
+    return be16(buf, i) * 65536 + be16(buf, i + 2)
+
+
+@scenario("message.unpack_from.framing", functions=[M + ".unpack_from"], max_unroll=2)
+def s_unpack_framing(vc):
+    """RFC 1035 §4.1 read side, name reader / RDATA decompression abstracted by their contracts: sections are read in
+    order with the counts of the header, every field from the offset where the previous one ended, RDATA is the RDLENGTH
+    octets after the record header (or their decompression for name-bearing types); anything truncated is a parse error;
+    no other exception."""
+    buf = vc.sym_bytes("buf")
+    off = vc.sym_int("off", lo=0)
+    L = len_(buf)
+    vc.assume(off + 12 <= L)
+    shape = vc.case("shape", [(1, 1, 0, 0), (0, 0, 1, 1), (2, 0, 0, 0)])
+    for k in range(4):
+        vc.assume(be16(buf, off + 4 + 2 * k) == shape[k])
+    R = Recorder(vc)
+    R.install(vc)
+    out = vc.call(M + ".unpack_from", vc.const(M), buf, off, None)
+    vc.ensure("total.only_parse_error", Or(out.ok, raised_is(out, SE())))
+    pos = off + 12
+    ni = 0
+    exp_q, exp_rr = [], [[], [], []]
+
+    def next_name(pos):
+        nonlocal ni
+        if ni >= len(R.names):
+            vc.ensure("names.read_for_every_entry", False)
+            return None
+        r = R.names[ni]
+        ni += 1
+        vc.ensure(f"name{ni - 1}.read_where_previous_field_ended", r["offset"] == pos)
+        vc.ensure(f"name{ni - 1}.same_buffer_and_cache", r["buffer"] is buf and r["cache"] is R.names[0]["cache"])
+        if vc.branch(r["fails"]):
+            vc.ensure("bad_name.parse_error", raised_is(out, SE()))
+            return None
+        return r
+
+    for i in range(shape[0]):
+        r = next_name(pos)
+        if r is None:
+            return
+        pos = pos + r["length"]
+        if vc.branch(pos + 4 > L):
+            vc.ensure("truncated_question.parse_error", raised_is(out, SE()))
+            return
+        exp_q.append((r["name"], be16(buf, pos), be16(buf, pos + 2)))
+        pos = pos + 4
+    ci = di = 0
+    for sec in range(3):
+        for i in range(shape[1 + sec]):
+            r = next_name(pos)
+            if r is None:
+                return
+            pos = pos + r["length"]
+            if vc.branch(pos + 10 > L):
+                vc.ensure("truncated_rr_header.parse_error", raised_is(out, SE()))
+                return
+            typ, cls, ttl, rdlen = be16(buf, pos), be16(buf, pos + 2), be32(buf, pos + 4), be16(buf, pos + 8)
+            pos = pos + 10
+            if vc.branch(pos + rdlen > L):
+                vc.ensure("truncated_rdata.parse_error", raised_is(out, SE()))
+                return
+            vc.ensure("type_table.consulted_with_record_type", ci < len(R.cancomp) and vc.eq(R.cancomp[min(ci, len(R.cancomp) - 1)]["type"], typ))
+            if ci >= len(R.cancomp):
+                return
+            comp = R.cancomp[ci]["result"]
+            ci += 1
+            if vc.branch(comp):
+                vc.ensure("decompress.called", di < len(R.decomp))
+                if di >= len(R.decomp):
+                    return
+                d = R.decomp[di]
+                di += 1
+                vc.ensure("decompress.args", And(d["buffer"] is buf, d["offset"] == pos, d["end"] == pos + rdlen, d["cache"] is R.names[0]["cache"]))
+                data = d["result"]
+            else:
+                data = buf[pos:pos + rdlen]
+            exp_rr[sec].append((r["name"], typ, cls, ttl, data))
+            pos = pos + rdlen
+    vc.ensure("wellformed.ok", out.ok)
+    if not out.ok:
+        return
+    vc.ensure("no_extra_calls", ni == len(R.names) and ci == len(R.cancomp) and di == len(R.decomp))
+    vc.ensure("end_offset", out.result[0] == pos)
+    msg = out.result[1]
+    vc.ensure("questions.count", len_(msg.questions) == len(exp_q))
+    if len_(msg.questions) == len(exp_q):
+        for i, (n, t, c) in enumerate(exp_q):
+            q = msg.questions[i]
+            vc.ensure(f"question{i}.fields", And(q.name == n, q.type == t, q.class_ == c))
+    for sec, attr in enumerate(("answers", "authorities", "additionals")):
+        lst = getattr(msg, attr)
+        vc.ensure(f"{attr}.count", len_(lst) == len(exp_rr[sec]))
+        if len_(lst) == len(exp_rr[sec]):
+            for i, (n, t, c, ttl, data) in enumerate(exp_rr[sec]):
+                rr = lst[i]
+                vc.ensure(f"{attr}{i}.header_fields", And(rr.name == n, rr.type == t, rr.class_ == c, rr.ttl == ttl))
+                vc.ensure(f"{attr}{i}.data", rr.data == data)
+
+
+@scenario("message.unpack", functions=[M + ".unpack"])
+def s_message_unpack(vc):
+    """unpack(buffer) accepts exactly one whole message: trailing bytes after it are a parse error."""
+    buf = vc.sym_bytes("buf")
+    end = vc.sym_int("end")
+    fails = vc.sym_bool("inner_fails")
+    inner_msg = mk_message(vc, dict(CONCRETE_HEADER))
+    seen = []
+
+    def inner(v, cls, buffer, offset, timestamp=None):
+        seen.append((buffer, offset))
+        if v.branch(fails):
+            raise_(v, SE())
+        return (end, inner_msg) if v.mode == "native" else STuple([lift(end), inner_msg])
+
+    if vc.mode == "native":
+        import mitmproxy.dns as D
+        orig = D.DNSMessage.__dict__["unpack_from"]
+        D.DNSMessage.unpack_from = classmethod(lambda cls, *a, **k: inner(vc, cls, *a, **k))
+        try:
+            out = vc.call(M + ".unpack", buf)
+        finally:
+            D.DNSMessage.unpack_from = orig
+    else:
+        vc.summary(M + ".unpack_from", inner)
+        out = vc.call(M + ".unpack", vc.const(M), buf)
+    vc.ensure("reads_from_start", len(seen) == 1 and seen[0][0] is buf and vc.eq(seen[0][1], 0))
+    if vc.branch(fails):
+        vc.ensure("inner_error.propagates", raised_is(out, SE()))
+    elif vc.branch(end == len_(buf)):
+        vc.ensure("exact.ok", out.ok)
+        if out.ok:
+            vc.ensure("exact.message", out.result is inner_msg)
+    else:
+        vc.ensure("trailing_bytes.parse_error", raised_is(out, SE()))
